@@ -1,8 +1,6 @@
 CONSTANTS
-  SkSet <- ThoroughSkeletons
-  Alpha = "core"
+  Families <- ThoroughFamilies
   InputSet <- ThoroughInputs
-  Chain = TRUE
 SPECIFICATION Spec
 INVARIANT WellFormed
 INVARIANT NoRuntimeError
